@@ -1,9 +1,61 @@
 import CotengraVerif.Driver.Util
+import CotengraVerif.Model.Flow
 
 namespace Cotengra.Driver.C17
-open Lean Cotengra Cotengra.Driver
+open Lean Cotengra Cotengra.Driver Cotengra.Flow
 
-/-- ops of property C17 (name them "c17.<op>") -/
-def handlers : List (String × Handler) := []
+def boolOf (j : Json) : Except String Bool := j.getBool?
+
+/-- rows: `[[callees], rdGlobal, rdHash]` -/
+def tableOf (j : Json) : Except String (List Facts) := do
+  (← arrOf j).mapM fun r => do
+    match ← arrOf r with
+    | [c, g, h] => pure { calls := ← natList c, rdGlobal := ← boolOf g, rdHash := ← boolOf h }
+    | _ => throw "expected [calls, rdGlobal, rdHash]"
+
+/-- op `c17.clean`: the decision procedure of `Props/C17.lean` (`cleanFrom`, `cleanAll`) run on a
+    fact table sent by the harness: per entry the verdict, the size of the explored set and the
+    tainted rows it reaches; and the joint verdict over all entries. -/
+def clean : Handler := fun j => do
+  let T ← tableOf (← field j "table")
+  let es ← natList (← field j "entries")
+  let rows := es.map fun e =>
+    jObj [("entry", jNat e), ("clean", jBool (cleanFrom T e)),
+          ("reach", jNat (members T (reachFrom T e)).length),
+          ("tainted", jNats (taintedFrom T e))]
+  pure (jObj [("entries", jArr rows), ("all", jBool (cleanAll T es))])
+
+/-- a small interpreter-level probe: the three-function program of `Props/C17.lean`
+    (`demoProg`-shaped: api loops `n` times over a helper that draws from `src`), run with the
+    given tapes; used by the harness to replay `get_rng` semantics (seeded tape = CPython's
+    `random.Random(seed)` stream, global tape = the perturbed global stream) on the model. -/
+def srcOf (s : String) : Except String Src :=
+  match s with
+  | "seeded" => pure .seeded
+  | "global" => pure .global
+  | "hash" => pure .hash
+  | _ => throw "src"
+
+def demoProg (src : Src) : Prog (List Nat × Nat)
+  | 0 => .loop (fun s => s.2 > 0) (.seq (.call 1) (.pure fun s => (s.1, s.2 - 1)))
+  | 1 => .draw src (fun v s => (s.1 ++ [v], s.2))
+  | _ => .pure id
+
+def listTape (l : List Nat) : Nat → Nat := fun i => l.getD i 0
+
+/-- op `c17.draws`: the values an API that draws `n` times from `src` obtains -/
+def draws : Handler := fun j => do
+  let src ← srcOf (← (← field j "src").getStr?)
+  let n ← natOf (← field j "n")
+  let seeded ← natList (← field j "seeded")
+  let glob ← natList (← field j "global")
+  let h ← natOf (← field j "hash")
+  let env : Env (List Nat × Nat) := ⟨([], n), ⟨listTape seeded, 0⟩, ⟨listTape glob, 0⟩, h⟩
+  match exec (demoProg src) (4 * n + 8) (.call 0) env with
+  | some r => pure (jObj [("values", jNats r.store.1), ("seeded_pos", jNat r.seeded.pos),
+                          ("global_pos", jNat r.global.pos)])
+  | none => pure (jObj [("values", Json.null)])
+
+def handlers : List (String × Handler) := [("c17.clean", clean), ("c17.draws", draws)]
 
 end Cotengra.Driver.C17
